@@ -2,6 +2,7 @@ package escheck
 
 import (
 	"context"
+	"errors"
 	"fmt"
 	"math"
 	"runtime"
@@ -102,7 +103,7 @@ func genTimeout(t *rapid.T) TimeoutCase {
 	c.DeadlineMs = rapid.SampledFrom([]int{0, 1, 1, 5, 5, 20, 20, 100, 300}).Draw(t, "deadline")
 	if rapid.IntRange(0, 3).Draw(t, "cancel") == 0 {
 		c.CancelMs = rapid.SampledFrom([]int{1, 3, 10, 40}).Draw(t, "cancelms")
-		c.Shape = rapid.SampledFrom([]string{"", "deadline+cancel", "parent-cancel", "pre-cancelled"}).Draw(t, "shape")
+		c.Shape = rapid.SampledFrom([]string{"", "deadline+cancel", "parent-cancel", "pre-cancelled", "cancel-with-cause", "parent-cancel-with-cause"}).Draw(t, "shape")
 	} else if c.DeadlineMs > 0 && rapid.IntRange(0, 3).Draw(t, "pd") == 0 {
 		c.Shape = "parent-deadline"
 	}
@@ -188,6 +189,18 @@ func checkTimeout(c TimeoutCase) (v ev.Verdict) {
 					ctx, cancelChild = context.WithTimeout(parent, far)
 					cancel = func() { cancelParent(); cancelChild() }
 					time.AfterFunc(limit, cancelParent)
+				case "cancel-with-cause":
+					// a host that says why it ends the context
+					var cancelCause context.CancelCauseFunc
+					ctx, cancelCause = context.WithCancelCause(context.Background())
+					cancel = func() { cancelCause(errors.New("host is shutting down")) }
+					time.AfterFunc(limit, cancel)
+				case "parent-cancel-with-cause":
+					parent, cancelCause := context.WithCancelCause(context.Background())
+					var cancelChild context.CancelFunc
+					ctx, cancelChild = context.WithTimeout(parent, far)
+					cancel = func() { cancelCause(errors.New("host is shutting down")); cancelChild() }
+					time.AfterFunc(limit, func() { cancelCause(errors.New("host is shutting down")) })
 				case "pre-cancelled":
 					ctx, cancel = context.WithTimeout(context.Background(), far)
 					cancel()
